@@ -7,7 +7,6 @@ import (
 	"fmt"
 	"os"
 	"path/filepath"
-	"strings"
 
 	"github.com/spf13/cobra"
 )
@@ -43,7 +42,7 @@ var rmCmd = &cobra.Command{
 		for _, arg := range args {
 			// check if the arg is registered in the Index
 			cleanedArg := filepath.Clean(arg)
-			cleanedArg = strings.ReplaceAll(cleanedArg, `\`, "/")
+			cleanedArg = filepath.ToSlash(cleanedArg)
 
 			_, _, isRegistered := client.Idx.GetEntry([]byte(cleanedArg))
 			isRegisteredAsDir := client.Idx.IsRegisteredAsDirectory(cleanedArg)
@@ -58,7 +57,7 @@ var rmCmd = &cobra.Command{
 		removed := make(map[string]struct{})
 		for _, arg := range args {
 			cleanedArg := filepath.Clean(arg)
-			cleanedArg = strings.ReplaceAll(cleanedArg, `\`, "/")
+			cleanedArg = filepath.ToSlash(cleanedArg)
 
 			var targetPaths []string
 			if _, _, isRegistered := client.Idx.GetEntry([]byte(cleanedArg)); isRegistered {
